@@ -157,6 +157,8 @@ typedef struct SimHooks {
     void (*on_exit)(SimProc *p);
     /* filter on bytes written to a pipe/socket by a process: may rewrite/truncate; return bytes to deliver, or -1 no change */
     long (*write_filter)(SimProc *p, SimFile *f, const uint8_t *buf, size_t n, Buf *replacement);
+    /* called after a read on a pipe/socket returned `got` bytes */
+    void (*post_read)(SimProc *p, int fd, const void *buf, size_t got);
 } SimHooks;
 extern SimHooks sim_hooks;
 
